@@ -829,12 +829,13 @@ macro_rules! ext_mod {
                         if let Some(sc) = &spec.script {
                             // a closure that only looks (queries, nested traversals) must see exactly the static traversal
                             let read_only = crate::exec_cont::parse_script(sc).iter().all(|e| e.ops.iter().all(|o| ["q", "s", "sd", "sp", "st", "so"].contains(&o.kind.as_str())));
-                            if read_only && ctx.has("c20") {
+                            if read_only && !ctx.oracles.is_empty() {
+                                let oname = if ctx.has("c20") { "c20".to_string() } else { ctx.oracles[0].clone() };
                                 let mut plain = spec.clone();
                                 plain.script = None;
                                 let shown0 = show_search(&plain, &do_search(st, &plain, None));
                                 if shown0 != shown {
-                                    ctx.fail(case, li, "c20", format!("the closure only looks at the graph (`{sc}`), yet the traversal differs from the one without it: `{shown}` instead of `{shown0}`"));
+                                    ctx.fail(case, li, &oname, format!("the closure only looks at the graph (`{sc}`), yet the traversal differs from the one without it: `{shown}` instead of `{shown0}`"));
                                 }
                             }
                         }
